@@ -5,6 +5,8 @@ import (
 	"flag"
 	"fmt"
 	"os"
+	"path/filepath"
+	"runtime/pprof"
 	"sort"
 	"strconv"
 	"strings"
@@ -71,8 +73,21 @@ func cmdRun(args []string) {
 	full := fs.Bool("full", false, "print full result")
 	noMerge := fs.Bool("nomerge", false, "disable if-merging")
 	hashT := fs.Bool("hashtransparent", false, "model sha1 as identity")
+	cpuprof := fs.String("cpuprofile", "", "write a CPU profile")
 	fs.Parse(args)
-	prog, err := Load(LoadSpec{RepoDir: *repo, PkgDir: *pkg, HarnessSrcs: strings.Split(*harness, ",")})
+	files := map[string][]byte{}
+	pkgName := ""
+	for _, h := range strings.Split(*harness, ",") {
+		b, rerr := os.ReadFile(h)
+		if rerr != nil {
+			fmt.Println("LOAD ERROR:", rerr)
+			os.Exit(3)
+		}
+		files[filepath.Base(h)] = b
+		pkgName = pkgNameOf(b)
+	}
+	files["zz_verif_rt.go"] = []byte(strings.Replace(rtTemplate, "PKGNAME", pkgName, 1))
+	prog, err := LoadOverlay(*repo, *pkg, files)
 	if err != nil {
 		fmt.Println("LOAD ERROR:", err)
 		os.Exit(3)
@@ -91,6 +106,11 @@ func cmdRun(args []string) {
 	if prog.entryFunc(*entry) == nil {
 		fmt.Println("no such entry function:", *entry)
 		os.Exit(3)
+	}
+	if *cpuprof != "" {
+		f, _ := os.Create(*cpuprof)
+		pprof.StartCPUProfile(f)
+		defer pprof.StopCPUProfile()
 	}
 	res := Explore(prog, cfg)
 	printResult(res, *full)
